@@ -111,6 +111,7 @@ func init() {
 		setConfigOnce()
 		s := NewStream(dir, "validate")
 		defer s.Close(dir, "validate")
+		monC16StoredWithinLimits(s)
 		e := &vbEnv{s: s, seen: map[string]bool{}}
 		good := sdk.AccAddress([]byte("a-20-byte-address-xx")).String()
 		good2 := sdk.AccAddress([]byte("b")).String() // 1-byte address
